@@ -371,7 +371,7 @@ pub fn run(ctx: &mut Ctx) -> Result<(), Violation> {
         "counter classes near 2^32 are reached through the feature-guarded State::verif_from_parts hook".into(),
     ];
     let depth = ctx.tier.pick(14usize, 40);
-    let total = ctx.tier.pick(400_000usize, 4_000_000);
+    let total = ctx.tier.pick(400_000usize, 16_000_000);
     let threads = ctx.threads.max(1);
     // deterministic pass: every message length 0..=200 x ad residues, each with a wrong delivery in between
     let mut det: Vec<Case> = vec![];
